@@ -39,14 +39,14 @@ def replay_for(prop: str, ob: dict, all_failed) -> dict:
         seed = os.environ.get("VERIF_SEED", "0") or "0"
         code, out = run_native("replay/random_commands.py", [prop, seed, "600"], timeout=600, full=True)
         tried.append({"scenario": "random_commands", "exit": code, "output": out[-800:]})
-        if code == 1:
+        if code == 1 and '"violated": true' in out:
             return {"reproduced": True, "scenario": "random_commands", "command": f"PYTHONPATH={REPO}/src {PY} {ROOT}/replay/random_commands.py {prop} {seed} 600", "output": out[-1500:], "tried": tried}
     # last candidate for the pool properties: the seeded random-history explorer (its oracles are those of the properties)
     if re.fullmatch(r"C(0[1-9]|1[0-5])", prop):
         seed = os.environ.get("VERIF_SEED", "0") or "0"
         code, out = run_native("replay/random_histories.py", [prop, seed, "8000"], timeout=600, full=True)
         tried.append({"scenario": "random_histories", "exit": code, "output": out[-800:]})
-        if code == 1:
+        if code == 1 and '"violated": true' in out:
             return {"reproduced": True, "scenario": "random_histories", "command": f"PYTHONPATH={REPO}/src {PY} {ROOT}/replay/random_histories.py {prop} {seed} 8000", "output": out[-1500:], "tried": tried}
     return {"reproduced": False, "tried": tried, "note": "no native scenario of the families tried fails on this tree; the failed obligation and the verifier's counter-model are above"}
 
